@@ -49,7 +49,7 @@ def write_cfg(wd, name, req, tr, resp, dev, cdev, emit, mod, res, shape):
 
 
 # number of cases TLC enumerates within the bounds (measured; only used to size the replayed sample)
-ENUMERATED = {"quick": 196560, "thorough": 2000000}
+ENUMERATED = {"quick": 196560, "thorough": 1224120}
 
 
 def replay_cases(wd, path):
@@ -77,7 +77,7 @@ def run(tier, replay=None):
     bounds = (3, 2, 3, "thorough") if thorough else (2, 1, 2, "quick")
 
     # 1. design level (no deviation) + generator (predictions with the open deviations), one enumeration
-    target = 200000 if thorough else 40000
+    target = 200000 if thorough else 24000
     mod = max(1, ENUMERATED[bounds[3]] // target)
     cases = os.path.join(wd, "cases.ndjson")
     with open(cases, "w") as f:
